@@ -143,7 +143,7 @@ func validHostname(s string) bool {
 		return false
 	}
 
-	s = strings.ToLower(s)
+	s = asciiToLower(s)
 
 	maxLength := 253
 	if s[len(s)-1] == '.' {
@@ -170,6 +170,19 @@ func validHostname(s string) bool {
 		}
 	}
 	return valid
+}
+
+// asciiToLower lower-cases the ASCII letters of s and leaves every other byte
+// as it is. Host names are ASCII: strings.ToLower would also fold non-ASCII
+// letters such as the Kelvin sign onto ASCII ones and rewrite invalid bytes.
+func asciiToLower(s string) string {
+	b := []byte(s)
+	for i, c := range b {
+		if 'A' <= c && c <= 'Z' {
+			b[i] = c + 'a' - 'A'
+		}
+	}
+	return string(b)
 }
 
 // Valid returns true if the address is well formed or false otherwise.
